@@ -74,12 +74,28 @@ func (m ClientState) GetPrefix() exported.Prefix {
 	return commitmenttypes.MerklePrefix{}
 }
 
+// checkInitialConsensusState: the consensus state installed with a client is the one of the client's
+// own header (proofs at that height are verified against its root, expiry is judged by its time).
+func (m ClientState) checkInitialConsensusState(state exported.ConsensusState) error {
+	consState, ok := state.(*ConsensusState)
+	if !ok {
+		return sdkerrors.Wrapf(clienttypes.ErrInvalidConsensus, "invalid consensus state type %T, expected %T", state, &ConsensusState{})
+	}
+	if !bytes.Equal(consState.Root, m.Header.Root) || !consState.Height.EQ(m.Header.Height) || consState.Timestamp != m.Header.Time {
+		return sdkerrors.Wrap(clienttypes.ErrInvalidConsensus, "consensus state is not the one of the client's header")
+	}
+	return nil
+}
+
 func (m ClientState) Initialize(
 	ctx sdk.Context,
 	cdc codec.BinaryCodec,
 	store sdk.KVStore,
 	state exported.ConsensusState,
 ) error {
+	if err := m.checkInitialConsensusState(state); err != nil {
+		return err
+	}
 	if m.Header.Height.RevisionHeight%m.Epoch != 0 {
 		return sdkerrors.Wrap(ErrInvalidGenesisBlock, "header")
 	}
@@ -109,6 +125,9 @@ func (m ClientState) UpgradeState(
 	store sdk.KVStore,
 	state exported.ConsensusState,
 ) error {
+	if err := m.checkInitialConsensusState(state); err != nil {
+		return err
+	}
 	if m.Header.Height.RevisionHeight%m.Epoch != 0 {
 		return sdkerrors.Wrap(ErrInvalidGenesisBlock, "header")
 	}
